@@ -119,6 +119,25 @@ def make_agent(
     return cls(obs_space(obs_kind), act_space(act_kind), index=index, hp_config=hp_config, **kw)
 
 
+def nondefault_kwargs(algo: str) -> Dict[str, Any]:
+    """Every scalar constructor option of the algorithm at a valid NON-default value (copies and restored agents have to
+    carry what the user configured, not the class defaults)."""
+    kw: Dict[str, Any] = {"learn_step": 3, "gamma": 0.9, "normalize_images": False}
+    if algo in ("DQN", "CQN"):
+        kw.update(lr=3e-4, tau=0.2, double=True)
+    elif algo == "RainbowDQN":
+        kw.update(lr=3e-4, tau=0.2, beta=0.6, prior_eps=1e-4, noise_std=0.3, n_step=2, combined_reward=True)
+    elif algo in ("DDPG", "TD3", "MADDPG", "MATD3"):
+        kw.update(lr_actor=3e-4, lr_critic=2e-3, tau=0.2, O_U_noise=False, expl_noise=0.3, mean_noise=0.1, theta=0.3, dt=0.02)
+        if algo != "MADDPG":
+            kw.update(policy_freq=3)
+    elif algo in ("PPO", "IPPO"):
+        kw.update(lr=3e-4, gae_lambda=0.8, action_std_init=0.4, clip_coef=0.3, ent_coef=0.03, vf_coef=0.7, max_grad_norm=0.9, update_epochs=2)
+    elif algo in ("NeuralUCB", "NeuralTS"):
+        kw.update(lr=2e-3, gamma=2.0, lamb=0.5, reg=0.01)
+    return kw
+
+
 def unwrap(agent):
     return agent.agent if hasattr(agent, "agent") and not hasattr(type(agent), "registry") else agent
 
